@@ -243,7 +243,24 @@ func runC01(c *Ctx, r *Report) {
 				"a new ordered map gets a freshly allocated key slice", "a new ordered map is built on (a slice of) another map's key array: appends on either side overwrite the other's keys, so replicas list different entries")
 		})
 	}
-	// Merge builds a new map and only reads its operands
+	pureMerge(c, r, "R-C01.5")
+	r.Doc("R-C01.6", "Join computes the candidates, validates and applies in one critical section of the destination")
+	le := repoLockEngine(c)
+	split := false
+	for _, sp := range le.Splits {
+		if sp.Fn.Root() == join {
+			split = true
+			r.Violate("R-C01.6", r.Key("R-C01.6", join, "store-after-reopen", sp.Field), sp.Pos, "Join releases the destination's lock between computing the merge and storing "+sp.Field+": an append completing in the window stays in the index but is lost from the heads (and is never propagated)")
+		}
+	}
+	if !split {
+		r.Hold("R-C01.6", r.Key("R-C01.6", join, "single-region", ""), join.Body.Pos(), true, "all guarded reads and writes of Join lie in one critical section")
+	}
+}
+
+// pureMerge: OrderedMap.Merge builds a new map and only reads its operands (shared by C01 and C03).
+func pureMerge(c *Ctx, r *Report, rule string) {
+	p := c.P
 	mg := p.Func("entry", "OrderedMap", "Merge")
 	mutates := ""
 	walkNoLit(mg.Body, func(nd ast.Node) bool {
@@ -266,7 +283,7 @@ func runC01(c *Ctx, r *Report) {
 		}
 		return true
 	})
-	r.Check(mutates == "", "R-C01.5", r.Key("R-C01.5", mg, "pure-merge", ""), mg.Body.Pos(),
+	r.Check(mutates == "", rule, r.Key(rule, mg, "pure-merge", ""), mg.Body.Pos(),
 		"Merge only reads its receiver and argument and returns a new map", "Merge mutates "+mutates+": a heads map that another goroutine or another log holds as an immutable snapshot changes under it")
 	_ = fmt.Sprintf
 	_ = strings.Join
